@@ -50,11 +50,13 @@ MANIFEST = {
             "both truncations, find_deltas_truncate_age over arbitrary clock answers), of update_rrdp_files and RsyncdStore::write "
             "as plans of file-system mutations over abstract file systems (non-truncating writes, rename semantics), and of a "
             "strict RFC 8182 client: serial_plus_one, session_changes_only_on_reset, deltas_contiguous (invariant over every "
-            "history), deltas_le_max_partial (with the exact side conditions; the unconditional bound is refuted by witnesses - open finding "
-            "F-C11-2), snapshot_is_state, client_catches_up (from the snapshot of any earlier state of the session, by induction "
+            "history), deltas_le_max (for every history under the guard min_nr + 1 <= max_nr and no young deltas; retention_bound_iff shows the "
+            "guard is exact; outside it the bound is refuted by witness histories - open finding F-C11-2), snapshot_is_state, client_catches_up (from the snapshot of any earlier state of the session, by induction "
             "over the history), notification_consistent_at_every_cut (every accepted prefix of the mutation plan, clean-up in any "
             "order, nothing assumed about left-over files), rsync_equals_snapshot (on any content of the rsync directory) and "
-            "rsync_write_after_any_cut (every cut); the behaviour of the pinned tree before the fixes 5d860534, 4ab08295, 8d070115, "
+            "rsync_write_after_any_cut (every cut); world_invariant: an inductive invariant over arbitrary histories of requests and "
+            "writes interrupted at any cut, with notification_consistent_at_every_instant, rrdp_write_after_any_history and "
+            "rsync_write_after_any_history as corollaries; the behaviour of the pinned tree before the fixes 5d860534, 4ab08295, 8d070115, "
             "bf93c0cb is kept as counter-models (pinned_*). Tied "
             "to the code by lock-step differential execution incl. the mutation log and the files on disk, with a fault hook "
             "that cuts a write before its k-th mutation.",
